@@ -95,7 +95,8 @@ def cost_job(interp, c, case):
     lo, hi = c.real("lo"), c.real("hi")
     c.assume(lo < hi)
     prior = {"k1": ["uniform", lo, hi]}
-    ics = [{"X": c.real("ic_%d_X" % n, lo=0), "Z": c.real("ic_%d_Z" % n, lo=0)} for n in range(N)]
+    keysets = (("X", "Z"), ("Y",), ("Z",), ("X", "Y", "Z"))
+    ics = [{s_: c.real("ic_%d_%s" % (n, s_), lo=0) for s_ in keysets[n % 4]} for n in range(N)]
     if cond_kind == "list":
         pcs = [{"cnd": c.real("pc_%d" % n)} for n in range(N)]
     elif cond_kind == "dict":
